@@ -73,7 +73,7 @@ pub fn ifs_json(specs: &[IfSpec]) -> Value {
     json!(specs
         .iter()
         .map(|s| json!({"name": s.name, "idx": s.index, "up": s.up,
-            "addrs": s.addrs.iter().map(|(ip, p)| json!({"ip": ip.to_string(), "o": octets(ip), "p": p, "v4": ip.is_ipv4()})).collect::<Vec<_>>()}))
+            "addrs": s.addrs.iter().map(|(ip, p)| json!({"ip": ip.to_string(), "o": octets(ip), "p": p, "v4": ip.is_ipv4(), "lo": ip.is_loopback()})).collect::<Vec<_>>()}))
         .collect::<Vec<_>>())
 }
 
@@ -143,10 +143,10 @@ fn scoped_json(a: &ScopedIp) -> Value {
         ScopedIp::V4(v4) => {
             let mut ifs: Vec<u32> = v4.interface_ids().iter().map(|i| i.index).collect();
             ifs.sort();
-            json!({"ip": v4.addr().to_string(), "ifs": ifs})
+            json!({"ip": v4.addr().to_string(), "ifs": ifs, "v4": true})
         }
-        ScopedIp::V6(v6) => json!({"ip": v6.addr().to_string(), "ifs": [v6.scope_id().index]}),
-        _ => json!({"ip": "?", "ifs": []}),
+        ScopedIp::V6(v6) => json!({"ip": v6.addr().to_string(), "ifs": [v6.scope_id().index], "v4": false}),
+        _ => json!({"ip": "?", "ifs": [], "v4": false}),
     }
 }
 
